@@ -331,7 +331,7 @@ pub fn run(cx: &mut Ctx) {
             // lengths the library's compressor never emits: 4097..=65808
             let mut toks = vec![Tok::Lit(7), Tok::Lit(9)];
             let mut data = vec![7u8, 9];
-            for (len, disp) in [(65808usize, 1usize), (65807, 2), (4097, 2), (273, 1), (272, 2), (17, 1), (16, 2)] {
+            for (len, disp) in [(0x1111usize, 1usize), (3, 4096), (65808, 2), (5, 4096), (65807, 2), (4097, 4096), (273, 1), (18, 4095), (272, 2), (17, 1), (16, 2), (0x2111, 3), (9, 4096)] {
                 toks.push(Tok::Ref(len, disp));
                 for _ in 0..len {
                     let b = data[data.len() - disp];
